@@ -26,9 +26,9 @@ func (gen *generator) indexTopLevelEntities(old *ast.Module) error {
 			ident := localIdent(entity.Name())
 			name := getTypeName(ident)
 			if prev, ok := gen.old.typeDefs[name]; ok {
-				if _, ok := prev.Typ().(*ast.OpaqueType); !ok {
-					return errors.Errorf("type identifier %q already present; prev `%s`, new `%s`", enc.TypeName(name), text(prev), text(entity))
-				}
+				// Note, a type may be used before it is defined, but it may not be
+				// defined twice; `%T = type opaque` is a definition, too.
+				return errors.Errorf("type identifier %q already present; prev `%s`, new `%s`", enc.TypeName(name), text(prev), text(entity))
 			}
 			gen.old.typeDefs[name] = entity
 		case *ast.ComdatDef:
